@@ -169,8 +169,50 @@ def siblings(ctx):
         ctx.nontrivial.add(("siblings", n, comp, gen, seed))
 
 
+def budget_walks(ctx):
+    """Budget games v(S) = -min(k, |S|) (the K-budget family) with n = 5 under the monotone approximations: many coalitions
+    are pinned down by the bounds before they are revealed, yet their reveal moves other bounds - the reward must be the
+    negated gap of FRESHLY recomputed bounds after every step and unstep."""
+    rng = ctx.rng
+    for kb in ([2, 3] if ctx.quick else [1, 2, 3, 4]):
+        for comp in (["sam_apx_1"] if ctx.quick else ["sam_apx_1", "sam_apx_10"]):
+            n = 5
+            v = [-min(kb, games.popcount(i)) for i in range(2 ** n)]
+            gap = rng.choice(list(GAP_FUNCTIONS.keys()))
+            env, _ = envlib.make_env(n, comp, gap, None, games.minimal_ids(n), [v])
+            expl = [c.id for c in env.explorable_coalitions]
+            for walk in range(6 if ctx.quick else 20):
+                env.reset()
+                chosen, trace, bad = [], [], None
+                for _ in range(12):
+                    free = [a for a in range(len(expl)) if expl[a] not in chosen]
+                    if chosen and rng.random() < 0.25:
+                        cid = rng.choice(chosen)
+                        env.unstep(expl.index(cid))
+                        chosen.remove(cid)
+                        trace.append(("unstep", expl.index(cid)))
+                    else:
+                        a = rng.choice(free)
+                        env.step(a)
+                        chosen.append(expl[a])
+                        trace.append(("step", a))
+                    ctx.evaluations += 1
+                    ctx.count("budget_game_calls", comp)
+                    fails = envlib.oracle_env(env, chosen, v, n, games.minimal_ids(n), True)
+                    if fails:
+                        bad = fails
+                        break
+                if bad:
+                    ctx.violation(f"budget game -min({kb},|S|), n=5, {comp}, {gap}: after reset and {trace} the environment contradicts the "
+                                  f"statement: {bad[:3]}",
+                                  {"n": n, "comp": comp, "gap": gap, "v": v, "calls": [list(t) for t in trace], "failures": str(bad[:5])})
+                    return
+            ctx.nontrivial.add(("budget", kb, comp, gap))
+
+
 def run(ctx, proof):
     siblings(ctx)
+    budget_walks(ctx)
     rng = ctx.rng
     gaps = list(GAP_FUNCTIONS.keys())
     sa_comps = ["superadditive", "superadditive_cached"]
